@@ -15,7 +15,7 @@ impl IntervalFunction for Custom {
     }
 }
 pub struct ReconnectAd {
-    svc: Option<ReconnectService<Inner>>,
+    svc: Option<Handles<ReconnectService<Inner>>>,
 }
 impl ReconnectAd {
     pub fn new() -> Self {
@@ -28,7 +28,7 @@ impl Adapter for ReconnectAd {
     }
     fn gen_cfg(&mut self, rng: &mut Rng, _size: Size) -> Value {
         let pol = *rng.pick(&["none", "fixed", "exp", "exp", "rand", "custom"]);
-        json!({"max": *rng.pick(&[-1i64, 0, 1, 2, 3, 5]), "pol": pol, "b0": 1 + rng.below(3), "cap": 4 + rng.below(6),
+        json!({"hm": rng.below(3), "max": *rng.pick(&[-1i64, 0, 1, 2, 3, 5]), "pol": pol, "b0": 1 + rng.below(3), "cap": 4 + rng.below(6),
                "retryOn": if rng.pct(80) { 1 } else { 0 }, "pred": *rng.pick(&["all", "noe2"])})
     }
     fn build(&mut self, cfg: &Value, sim: &mut Sim) {
@@ -49,7 +49,7 @@ impl Adapter for ReconnectAd {
         let layer = ReconnectLayer::new(b.build());
         let svc = layer.layer(Inner::new(&sim.w));
         let st = svc.state().clone();
-        self.svc = Some(svc);
+        self.svc = Some(Handles::new(svc, cfg["hm"].as_u64().unwrap_or(0)));
         sim.obs = Some(Box::new(move || {
             let mut m = Obj::new();
             m.insert("conn".into(), json!(match st.state() {
@@ -61,11 +61,12 @@ impl Adapter for ReconnectAd {
         }));
     }
     fn mk(&mut self, req: &Req) -> CallFut {
-        let mut s = self.svc.as_ref().unwrap().clone();
-        let w = futures::task::noop_waker();
-        let mut cx = std::task::Context::from_waker(&w);
-        let _ = s.poll_ready(&mut cx);
-        let f = s.call(req.clone());
+        let f = self.svc.as_mut().unwrap().with(|s| {
+            let w = futures::task::noop_waker();
+            let mut cx = std::task::Context::from_waker(&w);
+            let _ = s.poll_ready(&mut cx);
+            s.call(req.clone())
+        });
         Box::pin(async move {
             match f.await {
                 Ok(r) => Out::Ok { val: r.serial, req: r.req },
